@@ -78,6 +78,10 @@ class Family:
         src = open(self.driver).read()
         self.kf_ids = sorted(set(re.findall(r'VF_KNOWN\(\s*([A-Za-z0-9_]+)', src)))
         self.kernel_flags = getattr(self.mod, 'KERNEL_FLAGS', [])
+        # optional second kernel TU (also includes tetl; e.g. the same functions built with a different configuration macro)
+        k2 = getattr(self.mod, 'KERNEL2', None)
+        self.kernel2 = os.path.join(self.dir, k2) if k2 else None
+        self.kernel2_flags = getattr(self.mod, 'KERNEL2_FLAGS', [])
         self.driver_flags = getattr(self.mod, 'DRIVER_FLAGS', [])
 
 
@@ -135,7 +139,10 @@ class Build:
         os.makedirs(self.dir, exist_ok=True)
         inc = ['-I' + os.path.join(REPO, 'include'), '-I' + ENGINE, '-I' + self.fam.dir]
         steps = []
-        for (src, pre, ub, extra) in ((self.fam.kernel, 'K', self.ub, self.fam.kernel_flags), (self.fam.driver, 'D', False, self.fam.driver_flags)):
+        tus = [(self.fam.kernel, 'K', self.ub, self.fam.kernel_flags), (self.fam.driver, 'D', False, self.fam.driver_flags)]
+        if self.fam.kernel2:
+            tus.append((self.fam.kernel2, 'K2', self.ub, self.fam.kernel2_flags))
+        for (src, pre, ub, extra) in tus:
             ll = os.path.join(self.dir, pre + '.ll')
             c = os.path.join(self.dir, pre + '.c')
             cmd = [CLANG] + CLANG_FLAGS + (UB_FLAGS if ub else []) + inc + self.defs() + list(extra) + [src, '-o', ll]
@@ -155,15 +162,20 @@ class Build:
         self.funcs_encoded = sorted(set(re.findall(r'^define [^@]*@("?[^"( ]+"?)\(', ktxt, re.M)))
         # allocator reachability (static, unbounded): any call to an allocator from kernel IR
         self.alloc_calls = sorted(set(re.findall(r'call [^@\n]*@(_Znwm|_Znam|malloc|calloc|realloc|free|aligned_alloc|_ZdlPv|_ZdaPv|_ZdlPvm)\(', ktxt)))
-        main = ['#include "ll_prelude.h"', 'void ll_init_K(void); void ll_init_D(void);']
+        k2 = bool(self.fam.kernel2)
+        if k2:
+            ktxt += open(os.path.join(self.dir, 'K2.ll')).read()
+            self.funcs_encoded = sorted(set(re.findall(r'^define [^@]*@("?[^"( ]+"?)\(', ktxt, re.M)))
+        main = ['#include "ll_prelude.h"', 'void ll_init_K(void); void ll_init_D(void);' + (' void ll_init_K2(void);' if k2 else '')]
+        init = 'll_init_K(); ll_init_D();' + (' ll_init_K2();' if k2 else '')
         for en in self.entries:
             main.append('void %s(void);' % en)
-            main.append('void vfmain_%s(void){ ll_init_K(); ll_init_D(); %s(); VF_WITNESS("VF_WITNESS:end"); }' % (en, en))
-            main.append('void vfnw_%s(void){ ll_init_K(); ll_init_D(); %s(); }' % (en, en))
+            main.append('void vfmain_%s(void){ %s %s(); VF_WITNESS("VF_WITNESS:end"); }' % (en, init, en))
+            main.append('void vfnw_%s(void){ %s %s(); }' % (en, init, en))
         open(os.path.join(self.dir, 'main.c'), 'w').write('\n'.join(main) + '\n')
         gb = os.path.join(self.dir, 'model.gb')
         cmd = ['goto-cc', '-DVF_CBMC=1', '-I' + ENGINE, os.path.join(self.dir, 'K.c'), os.path.join(self.dir, 'D.c'), os.path.join(self.dir, 'main.c'),
-               os.path.join(ENGINE, 'vf_rt_cbmc.c'), '-o', gb]
+               os.path.join(ENGINE, 'vf_rt_cbmc.c'), '-o', gb] + ([os.path.join(self.dir, 'K2.c')] if k2 else [])
         rc, o, e, s, to = sh(cmd, timeout=300)
         if rc != 0 or not os.path.exists(gb):
             self.ok = False
@@ -373,7 +385,17 @@ def native_build(b, entry, outdir):
     dobj = os.path.join(outdir, 'dispatch.o')
     sh(['gcc', '-c', '-O1', disp, '-o', dobj], timeout=120)
     rt = [rt, dobj]
-    cmd = ['g++'] + NATIVE_FLAGS + inc + b.defs() + ['-DVF_NATIVE=1'] + list(b.fam.kernel_flags) + [b.fam.kernel, b.fam.driver] + rt + ['-o', exe]
+    if b.fam.kernel2:
+        k2o = os.path.join(outdir, 'k2.o')
+        rc, o, e, s, to = sh(['g++'] + NATIVE_FLAGS + inc + b.defs() + ['-DVF_NATIVE=1'] + list(b.fam.kernel2_flags) + ['-c', b.fam.kernel2, '-o', k2o], timeout=600)
+        if rc != 0:
+            return None, 'native build of kernel2 failed: ' + e[-2000:]
+        rt = rt + [k2o]
+    ko = os.path.join(outdir, 'k.o')
+    rc, o, e, s, to = sh(['g++'] + NATIVE_FLAGS + inc + b.defs() + ['-DVF_NATIVE=1'] + list(b.fam.kernel_flags) + ['-c', b.fam.kernel, '-o', ko], timeout=600)
+    if rc != 0:
+        return None, 'native build of kernel failed: ' + e[-3000:]
+    cmd = ['g++'] + NATIVE_FLAGS + inc + b.defs() + ['-DVF_NATIVE=1'] + list(b.fam.driver_flags) + [ko, b.fam.driver] + rt + ['-o', exe]
     rc, o, e, s, to = sh(cmd, timeout=600)
     if rc != 0:
         return None, 'native build failed: ' + e[-3000:]
@@ -418,9 +440,10 @@ def validate_translation(b, entries, nvec, seed, outdir):
     ex_t = os.path.join(outdir, 'tr')
     ex_o = os.path.join(outdir, 'or')
     dt = os.path.join(outdir, 'dispatch_t.c')
-    dispatch_source(b.entries, dt, 'void ll_init_K(void); void ll_init_D(void);')
-    open(dt, 'a').write('void vf_native_entry(void){ ll_init_K(); ll_init_D(); vf_dispatch(); }\n')
-    cmd = ['gcc', '-O1', '-w', '-fwrapv', '-fno-strict-aliasing', '-DVF_TRANSLATED=1', '-DVF_ENTRY=vf_native_entry', '-I' + ENGINE, os.path.join(b.dir, 'K.c'), os.path.join(b.dir, 'D.c'),
+    k2 = bool(b.fam.kernel2)
+    dispatch_source(b.entries, dt, 'void ll_init_K(void); void ll_init_D(void); void ll_init_K2(void);')
+    open(dt, 'a').write('void vf_native_entry(void){ ll_init_K(); ll_init_D(); %s vf_dispatch(); }\n' % ('ll_init_K2();' if k2 else ''))
+    cmd = ['gcc', '-O1', '-w', '-fwrapv', '-fno-strict-aliasing', '-DVF_TRANSLATED=1', '-DVF_ENTRY=vf_native_entry', '-I' + ENGINE, os.path.join(b.dir, 'K.c'), os.path.join(b.dir, 'D.c')] + ([os.path.join(b.dir, 'K2.c')] if k2 else []) + [
            dt, os.path.join(ENGINE, 'vf_rt_native.c'), '-lm', '-lstdc++', '-o', ex_t]
     rc, o, e, s, to = sh(cmd, timeout=600)
     if rc != 0:
@@ -429,7 +452,14 @@ def validate_translation(b, entries, nvec, seed, outdir):
     dispatch_source(b.entries, do)
     rt = os.path.join(outdir, 'rto.o')
     sh(['gcc', '-c', '-O1', '-DVF_ENTRY=vf_dispatch', os.path.join(ENGINE, 'vf_rt_native.c'), '-o', rt], timeout=120)
-    cmd = ['g++', '-std=c++20', '-O1', '-w'] + inc + b.defs() + ['-DVF_NATIVE=1'] + list(b.fam.kernel_flags) + [b.fam.kernel, b.fam.driver, rt, '-x', 'c', do, '-o', ex_o]
+    objs = []
+    for (src, fl, nm) in [(b.fam.kernel, b.fam.kernel_flags, 'vk.o'), (b.fam.driver, b.fam.driver_flags, 'vd.o')] + ([(b.fam.kernel2, b.fam.kernel2_flags, 'vk2.o')] if k2 else []):
+        ob = os.path.join(outdir, nm)
+        rc, o, e, s, to = sh(['g++', '-std=c++20', '-O1', '-w'] + inc + b.defs() + ['-DVF_NATIVE=1'] + list(fl) + ['-c', src, '-o', ob], timeout=600)
+        if rc != 0:
+            return 0, ['original does not compile natively (%s): %s' % (cfg_key(b.cfg), e[-600:])]
+        objs.append(ob)
+    cmd = ['g++'] + objs + [rt, '-x', 'c', do, '-o', ex_o]
     rc, o, e, s, to = sh(cmd, timeout=600)
     if rc != 0:
         return 0, ['original does not compile natively (%s): %s' % (cfg_key(b.cfg), e[-600:])]
